@@ -20,6 +20,9 @@ type StepRecipe struct {
 	Emitter      bool        `json:"emitter,omitempty"`
 	AnyData      bool        `json:"any_data,omitempty"`       // step data type `any` and no initializer (the hello-world shape)
 	SameSignalID bool        `json:"same_signal_id,omitempty"` // an emitter shares its ID with the handler
+	// SigVariant selects the data schema of this step's "poke" signal: steps of one plugin may declare the same
+	// signal ID with different data schemas (0: k in 0..1000, tag default "none"; 1: k in 0..5; 2: tag default "v2")
+	SigVariant int `json:"sig_variant,omitempty"`
 }
 
 // PluginRecipe describes a generated plugin schema.
@@ -119,14 +122,23 @@ func altScope() *schema.ScopeSchema {
 
 // pokeScope is the data schema of signals: a two-object scope whose root refers to the second object, so that
 // references inside signal data schemas have to survive describe / rebuild as well.
-func pokeScope() *schema.ScopeSchema {
+func pokeScope() *schema.ScopeSchema { return pokeScopeVariant(0) }
+
+func pokeScopeVariant(variant int) *schema.ScopeSchema {
+	kMax, tagDefault := int64(1000), `"none"`
+	switch variant {
+	case 1:
+		kMax = 5
+	case 2:
+		tagDefault = `"v2"`
+	}
 	return schema.NewScopeSchema(
 		schema.NewObjectSchema("Poke", map[string]*schema.PropertySchema{
-			"k":    schema.NewPropertySchema(schema.NewIntSchema(i64(0), i64(1000), nil), nil, true, nil, nil, nil, nil, nil),
+			"k":    schema.NewPropertySchema(schema.NewIntSchema(i64(0), i64(kMax), nil), nil, true, nil, nil, nil, nil, nil),
 			"meta": schema.NewPropertySchema(schema.NewRefSchema("PokeMeta", nil), nil, false, nil, nil, nil, nil, nil),
 		}),
 		schema.NewObjectSchema("PokeMeta", map[string]*schema.PropertySchema{
-			"tag":  schema.NewPropertySchema(schema.NewStringSchema(nil, i64(20), nil), nil, false, nil, nil, nil, strp(`"none"`), nil),
+			"tag":  schema.NewPropertySchema(schema.NewStringSchema(nil, i64(20), nil), nil, false, nil, nil, nil, strp(tagDefault), nil),
 			"wait": schema.NewPropertySchema(schema.NewIntSchema(nil, nil, schema.UnitDurationSeconds), nil, false, nil, nil, nil, nil, nil),
 		}),
 	)
@@ -182,7 +194,7 @@ func BuildPlugin(pr *PluginRecipe, rec *Recorder) *schema.CallableSchema {
 		}
 		if sr.HasSignals && sr.AnyData {
 			sigs := map[string]schema.CallableSignal{
-				"poke": schema.NewCallableSignal[any, any]("poke", pokeScope(), disp("poke"), func(ctx context.Context, data any, in any) {
+				"poke": schema.NewCallableSignal[any, any]("poke", pokeScopeVariant(sr.SigVariant), disp("poke"), func(ctx context.Context, data any, in any) {
 					rt.Yield(siteSignalH)
 					rec.record(Invocation{Step: stepID, Signal: "poke", Arg: in})
 				}),
@@ -192,7 +204,7 @@ func BuildPlugin(pr *PluginRecipe, rec *Recorder) *schema.CallableSchema {
 			}))
 		} else if sr.HasSignals {
 			sigs := map[string]schema.CallableSignal{
-				"poke": schema.NewCallableSignal[*Token, any]("poke", pokeScope(), disp("poke"), func(ctx context.Context, tok *Token, in any) {
+				"poke": schema.NewCallableSignal[*Token, any]("poke", pokeScopeVariant(sr.SigVariant), disp("poke"), func(ctx context.Context, tok *Token, in any) {
 					rt.Yield(siteSignalH)
 					rec.record(Invocation{Step: stepID, Token: tok, Signal: "poke", Arg: in})
 				}),
@@ -237,6 +249,7 @@ func GenPlugin(s Src, rich bool) *PluginRecipe {
 			sr.WithInit = s.Choose("p.init", 2) == 1
 			sr.Emitter = s.Choose("p.emit", 2) == 1
 			sr.SameSignalID = sr.Emitter && s.Choose("p.sameid", 2) == 1
+			sr.SigVariant = s.Choose("p.sigvariant", 3)
 		}
 		pr.Steps = append(pr.Steps, sr)
 	}
